@@ -403,6 +403,8 @@ class Family:
             res.findings += self.reentrant_insert()
         if self.prop == "C11":
             res.findings += self.reentrant_insert(raising=True)
+        if self.prop == "C03":
+            res.findings += self.shared_result_object()
         if self.prop == "C07":
             res.findings += self.read_during_iteration()
         if self.prop in ("C01", "C10"):
@@ -675,6 +677,34 @@ class Family:
                         "impl-vs-spec", f"mem/{'auto' if au else 'noauto'}: q = {label}: " + "; ".join(f"{k} = {v} (expected {want[k]})" for k, v in bad.items())[:600],
                         dict(family="hist-container-args", query=label, auto_index=au, observed={k: str(v) for k, v in bad.items()},
                              property=self.prop)))
+        return out[:1]
+
+    def shared_result_object(self):
+        """an update callable that answers the *same* dict object for several points (`lambda t: t or DEFAULTS`): each point
+        gets the values, not the object — a later update of one of them changes exactly the selected point"""
+        tf = C.import_tinyflux()
+        from tinyflux.storages import MemoryStorage
+
+        out = []
+        for au in (True, False):
+            for slot in ("tags", "fields"):
+                db = tf.TinyFlux(storage=MemoryStorage, auto_index=au)
+                for i in range(4):
+                    db.insert(tf.Point(time=V.dt_of(G.T0 + i), measurement="m",
+                                       tags=({"id": str(i)} if slot == "fields" else {}),
+                                       fields=({"n": i} if slot == "tags" else {})))
+                default = {"zone": "none"} if slot == "tags" else {"level": 0}
+                n1 = db.update_all(**{slot: (lambda old, d=default: old if old else d)})
+                sel = (tf.FieldQuery().n == 2) if slot == "tags" else (tf.TagQuery().id == "2")
+                n2 = db.update(sel, **{slot: ({"zone": "b"} if slot == "tags" else {"level": 7})})
+                got = [dict(getattr(p, slot)) for p in db.all(sorted=False)]
+                want = [({"zone": "none"} if slot == "tags" else {"level": 0}) for _ in range(4)]   # not read from `default`
+                want[2] = {"zone": "b"} if slot == "tags" else {"level": 7}
+                if (n1, n2, got) != (4, 1, want):
+                    out.append(Finding(
+                        "impl-vs-spec", f"mem/{'auto' if au else 'noauto'}: update_all({slot}=lambda old: old or DEFAULTS) over four points with an "
+                        f"empty {slot[:-1]} set answered {n1}; then update(one point, {slot}=…) answered {n2} and left {got} (expected 4, 1, {want})",
+                        dict(family="hist-shared-result", slot=slot, auto_index=au, observed=str(got), expected=str(want), property=self.prop)))
         return out[:1]
 
     def read_during_iteration(self):
@@ -1053,6 +1083,10 @@ def replay(payload):
     if payload.get("family") == "hist-container-args":
         r = Family(payload.get("property", "C01")).container_test_args()
         print(r[0].summary if r else "container-argument scenario passes")
+        return bool(r)
+    if payload.get("family") == "hist-shared-result":
+        r = Family(payload.get("property", "C03")).shared_result_object()
+        print(r[0].summary if r else "shared-result-object scenario passes")
         return bool(r)
     if payload.get("family") == "hist-read-during-iteration":
         r = Family(payload.get("property", "C07")).read_during_iteration()
